@@ -118,20 +118,40 @@ pub fn c18_exec_argv_exact() {
     });
 }
 
-/// Thorough: all 27 length combinations x 0..=3 arguments.
+/// Thorough: every combination of argument lengths 0..=2 for 1, 2 and 3 arguments
+/// (3 + 9 + 27 shapes; zero arguments is covered by the quick harness).
 #[kani::proof]
 #[kani::unwind(5)]
-pub fn c18_exec_argv_exact_full() {
-    split!(4, |nargs| {
-        split!(3, |l0| {
-            split!(3, |l1| {
-                split!(3, |l2| {
-                    exec_scenario([l0, l1, l2], nargs, false);
-                })
-            })
+pub fn c18_exec_full_1arg() {
+    split!(3, |l0| {
+        exec_scenario([l0, 0, 0], 1, false);
+    });
+}
+#[kani::proof]
+#[kani::unwind(5)]
+pub fn c18_exec_full_2args() {
+    split!(3, |l0| {
+        split!(3, |l1| {
+            exec_scenario([l0, l1, 0], 2, false);
         })
     });
 }
+macro_rules! exec_full_3 {
+    ($name:ident, $l0:expr) => {
+        #[kani::proof]
+        #[kani::unwind(5)]
+        pub fn $name() {
+            split!(3, |l1| {
+                split!(3, |l2| {
+                    exec_scenario([$l0, l1, l2], 3, false);
+                })
+            });
+        }
+    };
+}
+exec_full_3!(c18_exec_full_3args_len0, 0);
+exec_full_3!(c18_exec_full_3args_len1, 1);
+exec_full_3!(c18_exec_full_3args_len2, 2);
 
 /// The same with a multi-byte first argument.
 #[kani::proof]
